@@ -15,7 +15,7 @@ from .c01 import shape_sig
 
 PROP = 'C11'
 LEVEL = 'exploration'
-N = {'quick': 700, 'thorough': 20000}
+N = {'quick': 450, 'thorough': 20000}
 BATCH = 20
 RULE = ('seeded DAQmx worlds: 1-5 channels, 1-3 scalers each (format-changing over the ten DAQmx types, digital '
         'lines on uint8), 1-3 raw buffers with widths >= the scalers they hold plus padding, per-buffer row '
